@@ -515,7 +515,21 @@ static Json::Value genC07(Rng& rng) {
   o.maxTicks = 10;
   o.kernelKillP = 0.1;
   o.midTickEdits = true;
-  return genHookKillPlanWith(rng, o);
+  Json::Value plan = genHookKillPlanWith(rng, o);
+  // irregular tick spacing: the prekill window is a span of time, not a
+  // number of ticks
+  if (rng.chance(0.3)) {
+    Json::Value delays(Json::arrayValue);
+    int ticks = plan["ticks"].asInt();
+    for (int i = 0; i < ticks; i++)
+      delays.append((Json::Int64)(rng.chance(0.25)
+                                      ? rng.pick<int64_t>({-1, 1, 1000000000LL,
+                                                           6000000000LL,
+                                                           39000000000LL})
+                                      : 0));
+    plan["delays"] = delays;
+  }
+  return plan;
 }
 
 static PropReg reg({"C07", genC07, runC07});
